@@ -102,8 +102,10 @@ def regex_cegar(smt2, timeout_s, input_names):
 
             def nonempty(sel):
                 x = z3.String("__w", ctx)
+                if time.time() - t0 > timeout_s:
+                    return None, None
                 q = z3.Solver(ctx=ctx)
-                q.set("timeout", 10000)
+                q.set("timeout", 3000)
                 for R, b, pos in sel:
                     q.add(z3.InRe(x, R) if pos else z3.Not(z3.InRe(x, R)))
                 # the subject's other string constraints are not used here: the witness only has to exist
@@ -135,7 +137,7 @@ def regex_cegar(smt2, timeout_s, input_names):
         # every subject has a witness for its minterm: check that the witnesses are consistent with the rest by
         # pinning the subjects to them (they may be constrained by other string facts)
         s2 = z3.Solver(ctx=ctx)
-        s2.set("timeout", 10000)
+        s2.set("timeout", 5000)
         s2.add(*fs)
         for term, w in witnesses:
             s2.add(term == z3.StringVal(w, ctx))
@@ -155,7 +157,7 @@ def solve_one(task):
     if "str.in_re" in smt2 or "str.in.re" in smt2:
         t1 = time.time()
         try:
-            rc = regex_cegar(smt2, budgets.get("regex", 30), input_names)
+            rc = regex_cegar(smt2, budgets.get("regex", 12 if budgets.get("z3", 10) <= 10 else 40), input_names)
         except z3.Z3Exception as e:
             rc = None
             log.append(("regex-cegar", "error:" + str(e)[:100], round(time.time() - t1, 3)))
@@ -267,6 +269,15 @@ def solve_one(task):
     return dict(name=name, verdict="unknown", backend=None, seconds=time.time() - t0, log=log, model=None)
 
 
+def _child(conn, task):
+    try:
+        conn.send(solve_one(task))
+    except Exception as e:  # pragma: no cover
+        conn.send(dict(name=task[0], verdict="unknown", backend=None, seconds=0, log=[("worker", "error:" + repr(e)[:200], 0)], model=None))
+    finally:
+        conn.close()
+
+
 def solve_all(vcs, tier="quick", jobs=None, scratch=None):
     """Discharge VCs in a process pool.  Fills vc.result.  Two passes: (1) goal-only and the full problem with short
     budgets (most obligations end here; only two SMT texts are printed per VC), (2) premise-selection stages, other
@@ -279,14 +290,44 @@ def solve_all(vcs, tier="quick", jobs=None, scratch=None):
     ctx = mp.get_context("fork")
 
     def run(tasks):
-        out = {}
-        if len(tasks) <= 2:
-            for t in tasks:
-                out[t[0]] = solve_one(t)
-        else:
-            with cf.ProcessPoolExecutor(max_workers=jobs, mp_context=ctx) as ex:
-                for r in ex.map(solve_one, tasks, chunksize=1):
-                    out[r["name"]] = r
+        """One forked process per obligation, killed at a hard deadline (z3's own timeout is not always honoured)."""
+        out, pending, running = {}, list(tasks), []
+        while pending or running:
+            while pending and len(running) < jobs:
+                t = pending.pop(0)
+                b = t[4]
+                hard = 1.6 * (b.get("z3", 10) + b.get("cvc5", 0) + b.get("z3cli", 0) + b.get("regex", 15)
+                              + (40 if t[5] and len(t[5]) > 1 else 5)) + 20
+                parent, child = ctx.Pipe(duplex=False)
+                p = ctx.Process(target=_child, args=(child, t))
+                p.start()
+                child.close()
+                running.append((p, parent, t, time.time() + hard))
+            still = []
+            for p, conn, t, deadline in running:
+                if conn.poll(0):
+                    try:
+                        out[t[0]] = conn.recv()
+                    except EOFError:
+                        out[t[0]] = dict(name=t[0], verdict="unknown", backend=None, seconds=0, log=[("worker", "died", 0)], model=None)
+                    p.join(1)
+                    conn.close()
+                elif not p.is_alive():
+                    out[t[0]] = dict(name=t[0], verdict="unknown", backend=None, seconds=0, log=[("worker", "died", 0)], model=None)
+                    conn.close()
+                elif time.time() > deadline:
+                    p.terminate()
+                    p.join(2)
+                    if p.is_alive():
+                        p.kill()
+                    out[t[0]] = dict(name=t[0], verdict="unknown", backend=None, seconds=deadline - time.time(),
+                                     log=[("worker", "killed at the hard deadline (solver ignored its timeout)", 0)], model=None)
+                    conn.close()
+                else:
+                    still.append((p, conn, t, deadline))
+            running = still
+            if running:
+                time.sleep(0.01)
         return out
 
     results = {}
